@@ -1564,7 +1564,8 @@ def run(ck: core.Check):
     if ck.thorough:
         ck.leanchecker(["SpoxModel.Props.C09", "SpoxModel.Lemmas.Opset", "SpoxModel.Lemmas.OpsetRename",
                         "SpoxModel.Lemmas.OpsetFuncs", "SpoxModel.Lemmas.OpsetNames", "SpoxModel.Lemmas.OpsetMerge",
-                        "SpoxModel.Model.Opset"])
+                        "SpoxModel.Model.Opset", "SpoxModel.Lemmas.OpsetQualify", "SpoxModel.Model.OpsetQualify",
+                        "SpoxModel.Model.OpsetInits"])
 
     mismatches: list[tuple[str, str]] = []
     try:
